@@ -40,18 +40,21 @@ class Quant:
     def register_index(self, t: Any) -> None:
         if not z3.is_expr(t):
             return
-        t = z3.simplify(t)
-        if z3.is_int_value(t):
-            pass
         st = self._qstate()
+        kid = t.get_id()
+        if kid in st["keys"]:
+            return
+        st["keys"].add(kid)
+        if not st["facts"] and not st["bound"]:
+            # nothing to instantiate yet: remember the term only
+            st["terms"].append(t)
+            return
         sx = t.sexpr()
         if any(b in sx for b in st["bound"]):
-            return
-        if sx in st["keys"]:
+            st["keys"].discard(kid)
             return
         if st.get("depth", 0) >= 2 or len(sx) > 400:
             return  # instances of instances: stop (only weakens the hypotheses)
-        st["keys"].add(sx)
         st["terms"].append(t)
         for fact in list(st["facts"]):
             self._instantiate(fact, t)
